@@ -33,12 +33,22 @@ from ..runner import Prop
 
 BITS_FRACTION = 0.4         # of the generated stack cases: block computed by the Lean model from the seed string
 
-NAMES = ["dp", "mortality", "moves_left", "a_b", "a", "x.y", "gets_disease", "dp_2", "b_5", "a_5_b"]
-AKS = [None, None, None, 0, 5, -3, 17, "x", "a_b", "loc", "sex_choice", "b_5_c", "c", "with space", ""]
+NAMES = ["dp", "mortality", "moves_left", "a_b", "a", "x.y", "gets_disease", "dp_2", "b_5", "a_5_b",
+         "with space", "UPPER.Case", "123", "_", "a" * 70]      # legal but unusual names (LESSONS.md 10); 70 chars: two SHA-1 chunks
+AKS = [None, None, None, 0, 5, -3, 17, "x", "a_b", "loc", "sex_choice", "b_5_c", "c", "with space", "",
+       {"f": 1.5}, {"f": 0.0}, {"b": True}, {"t": [1, "a"]}, {"np": 1234}, {"ts": "2020-01-01 06:00:00"}]   # any object: float, bool, tuple, numpy int, Timestamp
+FORMS = ["pos", "pos", "kw", "omit", "ppf"]     # get_draw(i, k) / get_draw(index=i, additional_key=k) / get_draw(i) / sample_from_distribution(i, ppf=identity, ..)
 
 
-def _obs_draw(env, stream, req, ak, blocks, positional=False):
+def _identity_ppf(draws):
+    return draws
+
+
+def _obs_draw(env, stream, req, ak, blocks, positional=False, opt=None):
     out = {"t": env.tstr(), "step": env.steps}
+    opt = opt or {}
+    ak = sc.ak_obj(ak)
+    form = opt.get("form", "pos")
     try:
         ks, nums = env.block(stream, ak)
         out["ks"] = ks
@@ -47,7 +57,15 @@ def _obs_draw(env, stream, req, ak, blocks, positional=False):
         out["ks"] = None
         out["kerr"] = sc.exc_class(e)
     try:
-        d = stream.get_draw(env.index(req), ak)
+        idx = env.index(req, opt.get("ix", "int64"))
+        if form == "kw":
+            d = stream.get_draw(index=idx, additional_key=ak)
+        elif form == "omit" and ak is None:
+            d = stream.get_draw(idx)
+        elif form == "ppf":
+            d = stream.sample_from_distribution(idx, ppf=_identity_ppf, additional_key=ak)
+        else:
+            d = stream.get_draw(idx, ak)
         out["r"] = "ok"
         out["idx"] = [int(x) for x in d.index]
         out["hx"] = [sc.fhex(x) for x in d.values]
@@ -64,6 +82,14 @@ def _obs_draw(env, stream, req, ak, blocks, positional=False):
 
 def run_env(case, seed_override=None, light=False):
     """execute the case's ops on a fresh environment; `light`: draws only (the twin run with another seed)"""
+    if case.get("pre") and not light:
+        # an earlier, DIFFERENTLY configured simulation in the same process that uses the same decision points (LESSONS.md 8)
+        pre = dict(case["env"], crn=not case["env"]["crn"], seed=[case["env"]["seed"][0] + 17, "pre"], init_use=False)
+        e0 = sc.Env(pre)
+        if e0.streams and e0.labels:
+            e0.streams[0].get_draw(e0.index(e0.labels[::-1]), "pre")
+        e0.step()
+        e0.close()
     env = sc.Env(case["env"], seed_override)
     blocks = {}
     obs = {"size": env.size, "dup": env.dup, "seed": env.seed_str, "stream_seeds": list(env.stream_seeds),
@@ -73,6 +99,12 @@ def run_env(case, seed_override=None, light=False):
         if kind == "step":
             env.step()
             obs["ops"].append({"t": env.tstr()})
+        elif kind == "untrack":
+            try:
+                env.untrack(op[1])
+                obs["ops"].append({"r": "ok"})
+            except Exception as e:  # noqa: BLE001
+                obs["ops"].append({"r": sc.exc_class(e)})
         elif kind == "birth":
             try:
                 env.birth(op[1])
@@ -80,19 +112,36 @@ def run_env(case, seed_override=None, light=False):
             except Exception as e:  # noqa: BLE001
                 obs["ops"].append({"r": sc.exc_class(e), "pos": env.positions(), "labels": list(env.labels)})
         elif kind == "draw":
-            obs["ops"].append(_obs_draw(env, env.streams[op[1]], op[2], op[3], blocks))
+            obs["ops"].append(_obs_draw(env, env.streams[op[1]], op[2], op[3], blocks, opt=op[4] if len(op) > 4 else None))
         elif kind == "idraw":
-            obs["ops"].append(_obs_draw(env, env.init_stream, op[1], op[2], blocks, positional=True))
+            obs["ops"].append(_obs_draw(env, env.init_stream, op[1], op[2], blocks, positional=True, opt=op[3] if len(op) > 3 else None))
         else:
             raise ValueError(f"unknown op {op}")
     if light:
         return {"ops": [{k: o.get(k) for k in ("r", "hx")} for o in obs["ops"]], "seed": env.seed_str}
+    # draws the probe component made INSIDE its initializer (initial creation: one step before the start; births: now)
+    obs["init"] = []
+    for rec in env.init_log:
+        rec = dict(rec)
+        if rec.get("ks") is not None:
+            blocks.setdefault(rec["ks"], rec.pop("block"))
+        rec.pop("block", None)
+        rec["step"] = rec.pop("steps")
+        obs["init"].append(rec)
     env.close()
     return obs
 
 
+def all_ops(case, obs):
+    """the case's ops with their observations, followed by the draws made inside the initializer as pseudo draw ops"""
+    out = list(zip(case["ops"], obs["ops"]))
+    for rec in obs.get("init", []):
+        out.append((["draw", 0, rec["req"], "init", {"form": "kw", "inside": "initializer"}], rec))
+    return out
+
+
 def _ak_str(ak):
-    return str(ak)
+    return sc.ak_str(ak)
 
 
 def kind_of(case) -> str:
@@ -179,18 +228,28 @@ class C02(Prop):
         pop = rng.randint(1, 12)
         nstreams = rng.randint(1, 4)
         names = rng.sample(NAMES, nstreams)
-        seed = [rng.choice([0, 1, 7, 42, 123456]), rng.choice([None, None, 0, 3, 99])]
+        seed = [rng.choice([0, 1, 7, 42, 123456]), rng.choice([None, None, 0, 3, 99, "abc", "7_x"])]
         if big:     # bit-level cases: blocks that need several regenerations of the twister state (312 doubles each)
             lo = int(round(400 * (7.5 ** rng.random())))
             big_size = rng.choice(sc.good_sizes(lo, lo + 40))
         if mode == "sim":
             size = big_size if big else rng.choice(sc.good_sizes(10 * pop + 31, 10 * pop + 260))
             streams = [[n, None] for n in names]
-            return {"mode": mode, "crn": crn, "clock": clock, "size": size, "pop": pop, "seed": seed, "streams": streams}
+            env = {"mode": mode, "crn": crn, "clock": clock, "size": size, "pop": pop, "seed": seed, "streams": streams}
+            if rng.random() < 0.5:          # who asks for the streams, how, and a first use inside the initializer (LESSONS.md 2, 7)
+                env["owners"] = [rng.randint(0, 1) for _ in names]
+                env["forms"] = [rng.choice(["pos", "pos2", "kw"]) for _ in names]
+                env["other_first"] = rng.random() < 0.5
+            if rng.random() < 0.4:
+                env["init_use"] = True
+            return env
         size = big_size if big else rng.choice(sc.good_sizes(max(17, 4 * pop), 6 * pop + 200))
         streams = [[n, None] for n in names]
         if rng.random() < 0.5:           # a second stream of the same decision point under another seed
             streams.append([names[0], rng.choice(["s2", 5, "7_1", 1000])])
+        if crn and not big and rng.random() < 0.25:
+            # crowded map (LESSONS.md 9): barely more positions than simulants, so first- and second-order collisions are the rule
+            size = rng.choice(sc.good_sizes(pop + 2, pop + 24))
         if crn:
             labels = rng.sample(range(0, 4 * size), pop)
         else:
@@ -284,22 +343,38 @@ class C02(Prop):
         fresh = known[:]          # simulant labels available for births in direct mode
         born_this_step = True     # the initial population counts as this step's birth (sim + crn: one birth per step)
         aks = rng.sample(AKS, 3) + [None]
+        plain = rng.random() < 0.3          # a third of the cases: plain int64 indexes, positional calls only
+
+        def opt(ak):
+            """how the request is made: kind of Index object, call form"""
+            if plain:
+                return []
+            o = {"ix": rng.choice(sc.IX_KINDS), "form": rng.choice([f for f in FORMS if f != "omit" or ak is None])}
+            return [o]
+
         for blockno in range(rng.randint(1, 4)):
             # a probe request, unrelated history, the probe again, and its pieces
             s = rng.randrange(ns)
             ak = rng.choice(aks)
             probe = self._request(rng, known, env["size"], env["crn"], allow_bad=False) or known[:1]
-            ops.append(["draw", s, probe, ak])
+            ops.append(["draw", s, probe, ak] + opt(ak))
             for _ in range(rng.choice([0, 0, 1, 3, 8, 30]) if blockno == 0 else rng.randint(0, 6)):
-                ops.append(["draw", rng.randrange(ns), self._request(rng, known, env["size"], env["crn"]), rng.choice(aks)])
+                a2 = rng.choice(aks)
+                ops.append(["draw", rng.randrange(ns), self._request(rng, known, env["size"], env["crn"]), a2] + opt(a2))
             if rng.random() < 0.25:
-                ops.append(["idraw", self._request(rng, known, env["size"], env["crn"], allow_bad=False), rng.choice(aks)])
-            ops.append(["draw", s, probe, ak])
+                a2 = rng.choice(aks)
+                ops.append(["idraw", self._request(rng, known, env["size"], env["crn"], allow_bad=False), a2] + opt(a2))
+            if env["mode"] == "sim" and known and rng.random() < 0.3:
+                # some simulants become untracked: they keep their place in the randomness system and are still asked for
+                ops.append(["untrack", rng.sample(known, rng.randint(1, max(1, len(known) // 2)))])
+            ops.append(["draw", s, probe, ak] + opt(ak))
             for x in rng.sample(sorted(set(probe)), min(len(set(probe)), rng.randint(1, 4))):
-                ops.append(["draw", s, [x], ak])
+                ops.append(["draw", s, [x], ak] + opt(ak))
             q = list(probe)
             rng.shuffle(q)
-            ops.append(["draw", s, q[: rng.randint(1, len(q))], ak])
+            ops.append(["draw", s, q[: rng.randint(1, len(q))], ak] + opt(ak))
+            if env["mode"] == "sim" and rng.random() < 0.5:
+                ops.append(["draw", s, sorted(known), ak, {"ix": "pop", "form": "kw"}])      # the population's own index object
             # the same request under exactly one changed component
             r = rng.random()
             if r < 0.35 and ns > 1:
@@ -312,6 +387,8 @@ class C02(Prop):
                 born_this_step = False
                 if rng.random() < 0.5:
                     ops.append(["draw", s, probe, ak])
+            if env["mode"] == "sim" and rng.random() < 0.15:
+                ops.append(["birth", 0])          # zero simulants created: nothing registered, nothing disturbed (LESSONS.md 6)
             if rng.random() < 0.35 and not born_this_step:
                 if env["mode"] == "sim":
                     n = rng.randint(1, 3)
@@ -329,6 +406,8 @@ class C02(Prop):
                         born_this_step = True
                 ops.append(["draw", rng.randrange(ns), self._request(rng, known, env["size"], env["crn"]), rng.choice(aks)])
         case = {"env": env, "ops": ops}
+        if env["mode"] == "sim" and rng.random() < 0.25:
+            case["pre"] = True
         if bits:
             case["bits"] = True
         if env["mode"] == "sim" and rng.random() < 0.6:
@@ -336,7 +415,7 @@ class C02(Prop):
             if rng.random() < 0.5:
                 sd[0] = sd[0] + 1 + rng.randint(0, 5)
             else:
-                sd[1] = (sd[1] or 0) + 1 + rng.randint(0, 5)
+                sd[1] = (sd[1] + "y") if isinstance(sd[1], str) else (sd[1] or 0) + 1 + rng.randint(0, 5)
             case["twin_seed"] = sd
         return case
 
@@ -382,6 +461,40 @@ class C02(Prop):
         out.append({"env": {"mode": "direct", "crn": True, "clock": "simple", "size": 29, "pop": 0, "seed": [1, 2],
                             "streams": [["dp", None]], "labels": []},
                     "ops": [["draw", 0, [], None], ["draw", 0, [3], None], ["birth", [3, 9]], ["draw", 0, [9, 3], None]]})
+        n_first = len(out)      # (the bit-level copies below refer to out[0..n_first-1] by position)
+        extra = []
+        # ---- LESSONS.md audit: every kind of handle, call form, index object and additional key; untracked simulants;
+        # zero-size births; draws inside the initializer; an earlier differently configured simulation in the process
+        for crn, clock, other_first in ((True, "datetime", True), (False, "simple", False)):
+            env = {"mode": "sim", "crn": crn, "clock": clock, "size": 101, "pop": 6, "seed": [4, "abc"],
+                   "streams": [["dp", None], ["with space", None], ["a" * 70, None], ["_", None]],
+                   "owners": [0, 1, 1, 0], "forms": ["pos", "pos2", "kw", "kw"], "other_first": other_first, "init_use": True}
+            lab = [0, 1, 2, 3, 4, 5]
+            ops = []
+            for ix in sc.IX_KINDS:
+                ops += [["draw", 0, lab, None, {"ix": ix, "form": "pos"}], ["draw", 0, lab[::-1], None, {"ix": ix, "form": "kw"}],
+                        ["draw", 1, [3, 4, 5], "x", {"ix": ix, "form": "ppf"}], ["draw", 0, [5, 2, 2], None, {"ix": ix, "form": "omit"}],
+                        ["idraw", [4, 3], None, {"ix": ix, "form": "kw"}]]
+            for ak in AKS[3:]:
+                ops += [["draw", 2, [4, 0, 2], ak, {"form": "kw"}], ["draw", 3, [1], ak, {"form": "ppf"}]]
+            ops += [["untrack", [1, 4]], ["draw", 0, lab, None], ["draw", 0, [4, 1], None, {"form": "kw"}], ["draw", 0, [1], None],
+                    ["draw", 0, lab, None, {"ix": "pop", "form": "pos"}], ["birth", 0], ["draw", 0, lab, None],
+                    ["step"], ["birth", 0], ["draw", 0, lab[::-1], None], ["birth", 2], ["untrack", [7]],
+                    ["draw", 0, [7, 6, 0], "init"], ["draw", 0, [7, 6, 5, 4, 3, 2, 1, 0], None, {"ix": "range", "form": "kw"}],
+                    ["draw", 0, list(range(8)), None, {"ix": "pop", "form": "ppf"}], ["step"], ["draw", 1, [7, 1, 4], {"t": [1, "a"]}]]
+            extra.append({"env": env, "ops": ops, "pre": True, "twin_seed": [4, "abd"]})
+        # nobody in the initial population (LESSONS.md 6): requests, zero-size and real births afterwards
+        for crn in (False, True):
+            extra.append({"env": {"mode": "sim", "crn": crn, "clock": "simple", "size": 47, "pop": 0, "seed": [0, None],
+                                  "streams": [["dp", None]], "init_use": True},
+                          "ops": [["draw", 0, [], None], ["draw", 0, [0], None], ["birth", 0], ["step"], ["birth", 3],
+                                  ["draw", 0, [2, 0, 1], None, {"ix": "range", "form": "kw"}], ["draw", 0, [2], None], ["draw", 0, [3], None]]})
+        # a crowded map (LESSONS.md 9): 12 simulants, then 15, in a block of 17 positions - collisions upon collisions
+        lab = [5, 33, 2, 60, 41, 17, 8, 52, 29, 64, 11, 47]
+        extra.append({"env": {"mode": "direct", "crn": True, "clock": "datetime", "size": 17, "pop": 12, "seed": [9, None],
+                              "streams": [["dp", None]], "labels": lab},
+                      "ops": [["draw", 0, lab, None], ["draw", 0, sorted(lab), None], ["draw", 0, lab[::-1], None, {"form": "kw"}], ["step"],
+                              ["birth", [1, 66, 30]], ["draw", 0, [66, 1, 30] + lab, None], ["draw", 0, [30], None], ["draw", 0, [30, 30, 5], "x"]]})
         # ---- bit-level: the same stacks with the block computed by the Lean model from the seed string (no data handed over)
         for k in (0, 3, 5, 6):
             out.append(dict(out[k], bits=True))
@@ -412,6 +525,8 @@ class C02(Prop):
                                              "crn.init_3_x_12345699", "\u00e9", "dp_\u00e9t\u00e9_None_0", "\u20ac" * 18 + "a",
                                              "\u20ac" * 18 + "ab", "\U0001f600", "a\x00b", "\x7f\x80", "\ud800", "ab\udfffcd"]})
         # ---- RandomState(seed): boundary seeds, block lengths around the 624-word regeneration, a seed numpy refuses
+        out += extra
+        out.append(dict(extra[0], bits=True))
         m = (1 << 32) - 1
         out.append({"kind": "mt", "reqs": [[0, 5, "d"], [0, 5, "w"], [1, 313, "d"], [1, 1, "d"], [m - 1, 3, "d"], [m, 3, "d"], [m, 4, "w"],
                                            [5489, 2, "w"], [5489, 1000, "w"], [5489, 700, "d"], [m + 1, 1, "d"], [1 << 31, 0, "d"],
@@ -426,12 +541,24 @@ class C02(Prop):
                 yield dict(case, **{f: case[f][:i] + case[f][i + 1:]})
             return
         ops = case["ops"]
-        for i in range(len(ops) - 1, -1, -1):
-            yield dict(case, ops=ops[:i] + ops[i + 1:])
+        size = len(ops) // 2
+        while size >= 1:                      # delta debugging: drop halves, quarters, … single ops
+            for i in range(0, len(ops), size):
+                yield dict(case, ops=ops[:i] + ops[i + size:])
+            size //= 2
         for i, op in enumerate(ops):
             if op[0] == "draw" and len(op[2]) > 1:
                 for j in range(len(op[2])):
-                    yield dict(case, ops=ops[:i] + [[op[0], op[1], op[2][:j] + op[2][j + 1:], op[3]]] + ops[i + 1:])
+                    yield dict(case, ops=ops[:i] + [[op[0], op[1], op[2][:j] + op[2][j + 1:]] + op[3:]] + ops[i + 1:])
+        for i, op in enumerate(ops):          # plain call forms / index kinds
+            if op[0] == "draw" and len(op) > 4:
+                yield dict(case, ops=ops[:i] + [op[:4]] + ops[i + 1:])
+        for k in ("pre", "twin_seed"):
+            if case.get(k):
+                yield {a: b for a, b in case.items() if a != k}
+        e = case["env"]
+        if any(e.get(k) for k in ("owners", "forms", "init_use", "other_first")):
+            yield dict(case, env={a: b for a, b in e.items() if a not in ("owners", "forms", "init_use", "other_first")})
 
     # ------------------------------------------------------------------ implementation
     def run_impl(self, case):
@@ -453,7 +580,7 @@ class C02(Prop):
             ak = op[3]
         else:
             name, seed, ak = "crn.init", self._seed_of(case, obs, None), op[2]
-        return name, o["t"], _ak_str(ak), seed
+        return name, sc.expected_tstr(case["env"], o["step"]), _ak_str(ak), seed
 
     def _seed_of(self, case, obs, k):
         sd = case["env"]["seed"]
@@ -521,8 +648,8 @@ class C02(Prop):
         if env["crn"] and obs["pos0"] is not None:
             L.append(sc.pos_line(obs["pos0"]))
         seen = set()
-        for op, o in zip(case["ops"], obs["ops"]):
-            if op[0] == "step":
+        for op, o in all_ops(case, obs):
+            if op[0] in ("step", "untrack"):
                 continue
             if op[0] == "birth":
                 if env["crn"] and o["pos"] is not None:
@@ -557,8 +684,8 @@ class C02(Prop):
         if env["crn"] and obs["pos0"] is not None:
             next(it)
         seen = set()
-        for n, (op, o) in enumerate(zip(case["ops"], obs["ops"])):
-            if op[0] == "step":
+        for n, (op, o) in enumerate(all_ops(case, obs)):
+            if op[0] in ("step", "untrack"):
                 continue
             if op[0] == "birth":
                 if env["crn"] and o["pos"] is not None:
@@ -609,6 +736,10 @@ class C02(Prop):
                               f"int in [0, 2^32)"})
                 if o["h"] != o["h2"]:
                     F.append({"sig": "hash-not-deterministic", "msg": f"get_hash({key[:60]!r}) = {o['h']}, then {o['h2']}"})
+                # the anchored value, computed with hashlib alone: sha1 of the UTF-8 key mod 2^32 - 1 (LESSONS.md 11)
+                if o["sha"] is not None and o["h"] != int(o["sha"], 16) % 4294967295:
+                    F.append({"sig": "hash-not-sha1-utf8-mod-2^32-1", "msg": f"get_hash({key[:60]!r}) = {o['h']}, sha1(utf-8) mod (2^32-1) = "
+                              f"{int(o['sha'], 16) % 4294967295}"})
             return F
         by_seed = {}
         for n, (rq, o) in enumerate(zip(case["reqs"], obs["reqs"])):
@@ -636,7 +767,20 @@ class C02(Prop):
         if env["mode"] == "sim" and env["streams"] and obs["dup"] == "ok":
             fail("duplicate-decision-point-accepted", f"decision point {env['streams'][0][0]} handed out twice")
         known = set(range(env["pop"])) if env["mode"] == "sim" else set(env.get("labels", []))
-        size = obs["size"]
+        size = sc.expected_size(env)            # from the configuration, not read back (LESSONS.md 1)
+        if obs["size"] != size:
+            fail("block-size", f"the index map has size {obs['size']}; configured map_size {env['size']}, population {env['pop']}: expected {size}")
+        ops_all = [op for op, _ in all_ops(case, obs)]
+        expected_blocks = {}
+
+        def seeded_block(key):
+            """the block the anchors describe, computed without vivarium: RandomState(sha1(key) mod (2^32 - 1)).random_sample(size)"""
+            if key not in expected_blocks:
+                import hashlib
+                import numpy as np
+                h = int(hashlib.sha1(key.encode("utf8")).hexdigest(), 16) % 4294967295
+                expected_blocks[key] = np.random.RandomState(seed=h).random_sample(size)
+            return expected_blocks[key]
 
         def check_pos(snap, where):
             if snap is None:
@@ -651,15 +795,31 @@ class C02(Prop):
         groups = {}      # (stream no, step, ak repr, seed) -> {sim: (hex, op#)}
         recs = []        # successful, non-empty draw ops: (op#, components, {sim: hex})
         first_result = {}
-        for n, (op, o) in enumerate(zip(case["ops"], obs["ops"])):
+        known_at_end = set(known)
+        for op, o in zip(case["ops"], obs["ops"]):
+            if op[0] == "birth" and o["r"] == "ok":
+                known_at_end = set(o["labels"])
+        for n, (op, o) in enumerate(all_ops(case, obs)):
             if op[0] == "birth":
                 if o["r"] == "ok":
                     known = set(o["labels"])
+                elif env["mode"] == "sim" and op[1] == 0:
+                    fail("empty-birth-refused", f"op #{n} {op}: creating zero simulants raised {o['r']}")
                 check_pos(o["pos"], f"after op #{n} {op}")
                 continue
+            if op[0] == "untrack":
+                if o["r"] != "ok":
+                    fail("untrack-refused", f"op #{n} {op}: {o['r']}")
+                continue
+            if op[0] in ("draw", "idraw") and "t" in o:
+                want_t = sc.expected_tstr(env, o["step"])
+                if o["t"] != want_t:
+                    fail("clock-string", f"op #{n} {op}: the clock reads {o['t']!r} after {o['step']} steps, configured: {want_t!r}")
             if op[0] != "draw":
                 continue
             req = op[2]
+            if n >= len(case["ops"]):
+                known = known_at_end        # draws made inside the initializer: judged against everybody registered
             valid = all((s in known) if env["crn"] else (0 <= s < size) for s in req)
             if o["r"] != "ok":
                 if valid:
@@ -686,15 +846,24 @@ class C02(Prop):
             first_result.setdefault(full, (n, o["hx"]))
             for s, h in zip(req, o["hx"]):
                 if s in g and g[s][0] != h:
-                    fail("draw-depends-on-request", f"simulant {s}: {float.fromhex(g[s][0])} in op #{g[s][1]} {case['ops'][g[s][1]]}, "
+                    fail("draw-depends-on-request", f"simulant {s}: {float.fromhex(g[s][0])} in op #{g[s][1]} {ops_all[g[s][1]]}, "
                          f"{float.fromhex(h)} in op #{n} {op} (same decision point, time, key, seed)")
                     break
                 g.setdefault(s, (h, n))
             if req:
                 name = env["streams"][op[1]][0]
                 comp = (name, o["step"], repr(op[3]), self._seed_of(case, obs, op[1]))
-                joined = "_".join([name, o["t"], str(op[3]), comp[3]])
+                joined = "_".join([name, sc.expected_tstr(env, o["step"]), _ak_str(op[3]), comp[3]])
                 recs.append((n, comp, joined, dict(zip(req, o["hx"]))))
+                # the value itself: position `pos` of the block seeded by sha1 of (decision point, time, key, seed) - the anchors of
+                # the property, computed here from the configuration with hashlib + numpy only (LESSONS.md 1, 11)
+                pos = o.get("pos") if env["crn"] else req
+                if pos is not None and all(0 <= p < size for p in pos):
+                    blk = seeded_block(joined)
+                    bad = [(s_, float.fromhex(h), float(blk[p])) for s_, h, p in zip(req, o["hx"], pos) if float.fromhex(h) != float(blk[p])]
+                    if bad:
+                        fail("draw-not-the-seeded-block-value", f"op #{n} {op}: simulant {bad[0][0]} got {bad[0][1]}, position of the block seeded "
+                             f"by sha1({joined!r}) mod (2^32-1) holds {bad[0][2]} ({len(bad)} of {len(req)} differ)")
         # different decision point / time / additional key / seed: no draw in common
         seen_pairs = set()
         for i in range(len(recs)):
@@ -714,7 +883,7 @@ class C02(Prop):
                 if same:
                     diff = [w for w, x, y in zip(("decision-point", "time", "additional-key", "seed"), a[1], b[1]) if x != y]
                     fail("same-draws-different-" + "+".join(diff),
-                         f"ops #{a[0]} {case['ops'][a[0]]} and #{b[0]} {case['ops'][b[0]]} differ in {diff} but give simulants {same[:5]} "
+                         f"ops #{a[0]} {ops_all[a[0]]} and #{b[0]} {ops_all[b[0]]} differ in {diff} but give simulants {same[:5]} "
                          f"the same draws")
                     break
             else:
@@ -783,13 +952,29 @@ class C02(Prop):
             t.append("dup-decision-point:" + ("refused" if obs["dup"] != "ok" else "accepted"))
         ndraw = 0
         joined = {}
-        for op, o in zip(case["ops"], obs["ops"]):
+        if env.get("owners") and any(env["owners"]):
+            t.append("stream-from-second-component")
+        for f in set(env.get("forms") or []):
+            t.append("get_stream-form:" + f)
+        if case.get("pre"):
+            t.append("earlier-simulation-in-process")
+        if obs.get("init"):
+            t.append("draw-inside-initializer:" + ",".join(sorted({r["r"] if r["r"] == "ok" else "refused" for r in obs["init"]})))
+        untracked = set()
+        for op, o in all_ops(case, obs)[:len(case["ops"])]:
             t.append("op:" + op[0])
+            if op[0] == "untrack":
+                untracked |= set(op[1])
             if op[0] in ("draw", "idraw"):
                 req = op[2] if op[0] == "draw" else op[1]
                 t.append(f"{op[0]}:" + (o["r"] if o["r"] == "ok" else "refused:" + o["r"][4:]))
                 ak = op[3] if op[0] == "draw" else op[2]
-                t.append("ak:" + ("none" if ak is None else type(ak).__name__))
+                t.append("ak:" + ("none" if ak is None else "obj-" + next(iter(ak)) if isinstance(ak, dict) else type(ak).__name__))
+                opt = (op[4] if len(op) > 4 else None) if op[0] == "draw" else (op[3] if len(op) > 3 else None)
+                t.append("index-kind:" + (opt or {}).get("ix", "int64"))
+                t.append("call-form:" + (opt or {}).get("form", "pos"))
+                if untracked & set(req):
+                    t.append("req:untracked-simulants")
                 if op[0] == "draw":
                     ndraw += 1
                     if not req:
@@ -809,12 +994,12 @@ class C02(Prop):
                     if o["r"] == "ok" and req:
                         name = env["streams"][op[1]][0]
                         comp = (name, o["step"], repr(op[3]), self._seed_of(case, obs, op[1]))
-                        j = "_".join([name, o["t"], str(op[3]), comp[3]])
+                        j = "_".join([name, o["t"], _ak_str(op[3]), comp[3]])
                         if j in joined and joined[j] != comp:
                             t.append("ambiguous-seed-string")
                         joined.setdefault(j, comp)
             if op[0] == "birth":
-                t.append("birth:" + o["r"])
+                t.append("birth:" + o["r"] + (":zero" if op[1] in (0, []) else ""))
         t.append("history:" + ("0" if ndraw <= 2 else "1-10" if ndraw <= 12 else "11-30" if ndraw <= 32 else ">30"))
         return t
 
